@@ -326,6 +326,18 @@ class Model(object):
         memo[key] = written
         return written
 
+    def extent(self, rec, fld, default=None):
+        """configured number of elements of array field rec.fld (follows co_cfg.h of the analysed configuration)"""
+        from .ir import array_extent
+        for (fn_, ty, cty) in self.records.get(rec, ()):
+            if fn_ == fld:
+                e = array_extent(cty)
+                if e:
+                    return e
+        if default is None:
+            raise AnalysisBroken('anchor array %s.%s not found' % (rec, fld))
+        return default
+
     def need(self, *names):
         for n in names:
             if n not in self.funcs:
